@@ -55,6 +55,12 @@ func genCfg(c *core.Ctx, idx int, plans []wl.NamedPlan) wl.Cfg {
 	default:
 		cfg.Sizes = mon.SmallSizes
 	}
+	// every 4th trial runs on the library's own transport wrapper (none / read / write / both buffers)
+	if idx%4 == 3 {
+		wraps := [][2]int{{0, 0}, {64, 0}, {0, 64}, {4096, 4096}, {0, 1}, {16, 200}}
+		wv := wraps[(idx/4)%len(wraps)]
+		cfg.Wrap = &wv
+	}
 	switch k := idx % 5; {
 	case k <= 1 && cfg.Mode != mon.Sync:
 		p := plans[(idx/5)%len(plans)]
